@@ -308,12 +308,20 @@ def c09(run):
     for fam, st in zip(bfams, bsts):
         path, n = run.records(st)
         run.replay("render", path, name="render-b-" + fam)
+    # nil pointers and unsupported values nested in the data (the families of C12, judged for C09)
+    dfams = ["bad", "g1"] if run.tier == "quick" else ["bad", "g1", "g2"]
+    dsts = run.tlc_many([dict(module="MC_Data", cfg=text_cfg(fam), name="MC_Data_" + fam, timeout=3000, workers=1) for fam in dfams])
+    for fam, st in zip(dfams, dsts):
+        path, n = run.records(st)
+        run.replay("data", path, name="data-" + fam)
     return vp.finish(run, "model_checking",
                      "the kind-confusion matrix: every binary operator x 16 value kinds on both sides (incl. the int64 "
                      "bounds, empty and non-empty strings/arrays/objects, nil), every prefix/postfix operator, index and "
                      "member access x every receiver and key kind, conditions of every kind, and raw templates with "
                      "absent loop clauses and misplaced directives; every built-in on its small domain incl. negative and "
-                     "oversized counts; the model (total: value, demanded error, or "
+                     "oversized counts; Go data values with nil at every pointer / interface position and each unsupported "
+                     "kind (chan, func, complex, fixed-size array, non-string-keyed map, uintptr) at every depth; "
+                     "the model (total: value, demanded error, or "
                      "unspecified) predicts each and the harness requires: no panic, no hang, the predicted value or "
                      "error where fixed, and a line >= 1 on every evaluation error", exhaustive=True)
 
@@ -441,7 +449,7 @@ def c13(run):
 
 @check("C11")
 def c11(run):
-    fams = ["str2", "arr2", "num", "twice"] if run.tier == "quick" else ["str3", "arr3", "num", "twice"]
+    fams = ["str2", "arr2", "num", "twice", "argvars"] if run.tier == "quick" else ["str3", "arr3", "num", "twice", "argvars"]
     sts = run.tlc_many([dict(module="MC_Builtins", cfg=text_cfg(fam).replace("INVARIANTS Gen", "INVARIANTS Total Gen"),
                              name="MC_Builtins_" + fam, timeout=3000, workers=2) for fam in fams])
     for fam, st in zip(fams, sts):
@@ -453,7 +461,8 @@ def c11(run):
                      "euro, emoji, space}, all arrays up to the bound over {1, 2, \"a\", [1], {k:1}, nil}, ints -4..4 and "
                      "the int64 bounds, floats in quarter steps -2.75..2.75 plus ties; at/truncate/repeat with every "
                      "count -1..4, slice with every (start, end) in -2..6 on lengths 0..4, contains with every "
-                     "substring / element, trims, splits, decimal variants, wrong-kind and missing arguments; rendered "
+                     "substring / element, trims, splits, decimal variants, wrong-kind and missing arguments; every call "
+                     "with arguments also through variables, made twice, with receiver and arguments printed again; rendered "
                      "as {{ r = recv }}{{ r.f(args) }}|{{ r }} so the unchanged receiver is observed; custom functions "
                      "registered under every built-in name must not take precedence; output must be valid UTF-8",
                      exhaustive=True,
